@@ -24,6 +24,10 @@ type c17Op struct {
 	// then repeats its PUBREL this many times after the exchange completed.
 	Deliver2   bool `json:"deliver2,omitempty"`
 	ExtraPubrel int  `json:"extra_pubrel,omitempty"`
+	// Inbound2: when the first transmission of this call's request arrives, the gateway also starts a
+	// QoS 2 delivery to the client which carries the same message ID as the request and completes
+	// (PUBREC, PUBREL, PUBCOMP) while the call may still be waiting for its acknowledgement.
+	Inbound2 bool `json:"inbound2,omitempty"`
 }
 
 type c17Case struct {
@@ -92,6 +96,9 @@ func genC17(t *rapid.T) c17Case {
 		for s := 0; s < steps; s++ {
 			op.Fates = append(op.Fates, genFates(t, int(c.Retries)+1))
 		}
+		if steps > 0 && rapid.IntRange(0, 3).Draw(t, "inbound2") == 0 {
+			op.Inbound2 = true
+		}
 		c.Ops = append(c.Ops, op)
 	}
 	return c
@@ -118,10 +125,19 @@ func runC17(c c17Case) (r vf.Result) {
 	var cur *c17Op
 	seen := map[string]int{} // transmissions seen per (type, msgID) of the current call
 	var pubcompOwed, pubcompGot int
+	inbound := map[uint16]string{} // message ID of a gateway-started QoS 2 delivery -> "pubrec" / "pubcomp" awaited / "done"
 	s.Respond = func(p snref.Pkt) []snref.Pkt {
 		if p.Type == snref.PUBCOMP {
 			pubcompGot++
+			if inbound[p.MsgID] == "pubcomp" {
+				inbound[p.MsgID] = "done"
+			}
 			return nil
+		}
+		if p.Type == snref.PUBREC && inbound[p.MsgID] == "pubrec" {
+			// (a PUBREC can only come from the client as the receiver of our QoS 2 delivery)
+			inbound[p.MsgID] = "pubcomp"
+			return []snref.Pkt{{Type: snref.PUBREL, MsgID: p.MsgID}}
 		}
 		if p.Type == snref.PUBREC || p.Type == snref.PUBACK || p.Type == snref.REGACK {
 			return nil // answers to the gateway's own packets are handled by the op itself
@@ -139,21 +155,26 @@ func runC17(c c17Case) (r vf.Result) {
 		key := fmt.Sprintf("%d/%d", p.Type, p.MsgID)
 		k := seen[key]
 		seen[key]++
+		var extra []snref.Pkt
+		if cur.Inbound2 && k == 0 && step == 0 && inbound[p.MsgID] == "" {
+			inbound[p.MsgID] = "pubrec"
+			extra = []snref.Pkt{{Type: snref.PUBLISH, TIT: snref.TITShort, TopicID: snref.ShortID("ab"), QoS: 2, MsgID: p.MsgID, Data: []byte("in2")}}
+		}
 		fate := "lost"
 		if k < len(cur.Fates[step]) {
 			fate = cur.Fates[step][k]
 		}
 		switch fate {
 		case "lost":
-			return nil
+			return extra
 		case "acklost":
 			g.Answer(p) // the gateway processes the request (e.g. hands out a topic ID)
-			return nil
+			return extra
 		case "dup":
 			a := g.Answer(p)
-			return append(a, a...)
+			return append(extra, append(a, a...)...)
 		}
-		return g.Answer(p)
+		return append(extra, g.Answer(p)...)
 	}
 	dgBefore := 0
 	for i := range c.Ops {
@@ -269,7 +290,7 @@ func runC17(c c17Case) (r vf.Result) {
 func TestC17(t *testing.T) {
 	vf.Check(t, vf.Prop[c17Case]{
 		ID: "C17", Name: "client-qos-under-loss", Bubble: true,
-		Rule: "real client (RetryCount 0-4) against a scripted gateway with a drawn fate for every transmission (original and each retransmission) of every protocol step of Register, Subscribe, Unsubscribe and Publish (QoS 0-3; short, predefined and registered topics): lost / processed but acknowledgement lost / acknowledged / acknowledged twice; plus QoS 2 deliveries from the gateway whose PUBREL is repeated 0-3 times after the exchange completed. Non-trivial = a plan with at least one loss, or a PUBREL after completion; distinct by case.",
+		Rule: "real client (RetryCount 0-4) against a scripted gateway with a drawn fate for every transmission (original and each retransmission) of every protocol step of Register, Subscribe, Unsubscribe and Publish (QoS 0-3; short, predefined and registered topics): lost / processed but acknowledgement lost / acknowledged / acknowledged twice; plus QoS 2 deliveries from the gateway whose PUBREL is repeated 0-3 times after the exchange completed; a quarter of the calls overlap with a complete QoS 2 delivery from the gateway which carries the call's own message ID. Non-trivial = a plan with at least one loss, or a PUBREL after completion; distinct by case.",
 		Assumptions: []string{"PUBACKs with a rejecting return code and PUBRELs for message IDs that never existed are not generated", "after a call that the plan makes fail, the rest of the history is not judged"},
 		Gen:         genC17,
 		Run:         runC17,
